@@ -10,15 +10,15 @@ macro "c09_psimp" : tactic =>
       Stage.insideRun, Stage.handlerAvailable, Stage.dimsKnown, run, ending, faultBefore, Stage.idx, runP, pipeline])
 
 macro "c09_pl" : tactic =>
-  `(tactic| simp [*, runP, pipeline, foldSteps, step, firstFault, List.findSome?, look, Option.toList])
+  `(tactic| simp [*, runP, pipeline, foldSteps, step, firstBeh, List.findSome?, look, Option.toList])
 
 set_option maxRecDepth 8000 in
 set_option maxHeartbeats 4000000 in
 /-- for a single fault (or none) the fold computes what the table says -/
 theorem runP_single (sc : Scenario) (f : Option (Stage × Raise)) :
-    runP sc f.toList = run { sc with fault := f } := by
+    runP sc (Behaviours.ofRaises f.toList) = run { sc with fault := f } := by
   rcases f with _ | ⟨s, r⟩
-  · simp only [Option.toList]
+  · simp only [Option.toList, Behaviours.ofRaises, List.map]
     cases hf : parseFlags sc.flags 0 with
     | stop => c09_psimp
     | throwOptionError => c09_psimp
@@ -29,7 +29,7 @@ theorem runP_single (sc : Scenario) (f : Option (Stage × Raise)) :
         rcases hp : parseOpts (expandOpts sc.opts) (if sc.ampl then 1 else w0) with ⟨w, _ | r'⟩
         · cases ho : sc.objnoTooBig <;> cases he : sc.justExport <;> c09_psimp
         · c09_psimp
-  · simp only [Option.toList]
+  · simp only [Option.toList, Behaviours.ofRaises, List.map]
     cases hf : parseFlags sc.flags 0 with
     | stop => cases s <;> c09_psimp
     | throwOptionError => cases s <;> c09_psimp
@@ -46,66 +46,182 @@ set_option maxRecDepth 8000 in
 set_option maxHeartbeats 4000000 in
 /-- the fold only depends on the first stage (in execution order) at which the environment raises -/
 theorem runP_first (sc : Scenario) (bs : Behaviours) :
-    runP sc bs = runP sc (firstFault bs).toList := by
+    runP sc bs = runP sc (firstBeh bs).toList := by
   cases h0 : look bs .ctor with
-  | some r => c09_pl
+  | some b => cases b <;> c09_pl
   | none =>
   cases h1 : look bs .init with
-  | some r => c09_pl
+  | some b => cases b <;> c09_pl
   | none =>
   cases h2 : look bs .openNL with
-  | some r => c09_pl
+  | some b => cases b <;> c09_pl
   | none =>
   cases h3 : look bs .header with
-  | some r => c09_pl
+  | some b => cases b <;> c09_pl
   | none =>
   cases h4 : look bs .options with
-  | some r => c09_pl
+  | some b => cases b <;> c09_pl
   | none =>
   cases h5 : look bs .populate with
-  | some r => c09_pl
+  | some b => cases b <;> c09_pl
   | none =>
   cases h6 : look bs .body with
-  | some r => c09_pl
+  | some b => cases b <;> c09_pl
   | none =>
   cases h7 : look bs .names with
-  | some r => c09_pl
+  | some b => cases b <;> c09_pl
   | none =>
   cases h8 : look bs .convert with
-  | some r => c09_pl
+  | some b => cases b <;> c09_pl
   | none =>
   cases h9 : look bs .extras with
-  | some r => c09_pl
+  | some b => cases b <;> c09_pl
   | none =>
   cases h10 : look bs .solve with
-  | some r => c09_pl
+  | some b => cases b <;> c09_pl
   | none =>
   cases h11 : look bs .report with
-  | some r => c09_pl
+  | some b => cases b <;> c09_pl
   | none =>
   cases h12 : look bs .suffixes with
-  | some r => c09_pl
+  | some b => cases b <;> c09_pl
   | none => c09_pl
 
 /-- the scenario the table is consulted with -/
 def Scenario.withFaults (sc : Scenario) (bs : Behaviours) : Scenario := { sc with fault := firstFault bs }
 
-theorem runP_eq_run (sc : Scenario) (bs : Behaviours) : runP sc bs = run (sc.withFaults bs) := by
-  rw [runP_first, runP_single]; rfl
+theorem look_exceptionsOnly (bs : Behaviours) (h : bs.exceptionsOnly = true) (s : Stage) (b : Beh)
+    (hl : look bs s = some b) : ∃ r, b = .raises r := by
+  induction bs with
+  | nil => simp [look] at hl
+  | cons p bs ih =>
+    obtain ⟨s', b'⟩ := p
+    simp only [Behaviours.exceptionsOnly, List.all_cons, Bool.and_eq_true] at h
+    simp only [look] at hl
+    split at hl
+    · simp only [Option.some.injEq] at hl; subst hl
+      cases b' <;> simp at h
+      exact ⟨_, rfl⟩
+    · exact ih h.2 hl
+
+theorem firstBeh_some (bs : Behaviours) (s : Stage) (b : Beh) (h : firstBeh bs = some (s, b)) : look bs s = some b := by
+  simp only [firstBeh, List.findSome?] at h
+  cases h0 : look bs .ctor with
+  | some v => simp [h0] at h; obtain ⟨rfl, rfl⟩ := h; exact h0
+  | none =>
+    simp only [h0, Option.map] at h
+    cases h1 : look bs .init with
+    | some v => simp [h1] at h; obtain ⟨rfl, rfl⟩ := h; exact h1
+    | none =>
+      simp only [h1, Option.map] at h
+      cases h2 : look bs .openNL with
+      | some v => simp [h2] at h; obtain ⟨rfl, rfl⟩ := h; exact h2
+      | none =>
+        simp only [h2, Option.map] at h
+        cases h3 : look bs .header with
+        | some v => simp [h3] at h; obtain ⟨rfl, rfl⟩ := h; exact h3
+        | none =>
+          simp only [h3, Option.map] at h
+          cases h4 : look bs .options with
+          | some v => simp [h4] at h; obtain ⟨rfl, rfl⟩ := h; exact h4
+          | none =>
+            simp only [h4, Option.map] at h
+            cases h5 : look bs .populate with
+            | some v => simp [h5] at h; obtain ⟨rfl, rfl⟩ := h; exact h5
+            | none =>
+              simp only [h5, Option.map] at h
+              cases h6 : look bs .body with
+              | some v => simp [h6] at h; obtain ⟨rfl, rfl⟩ := h; exact h6
+              | none =>
+                simp only [h6, Option.map] at h
+                cases h7 : look bs .names with
+                | some v => simp [h7] at h; obtain ⟨rfl, rfl⟩ := h; exact h7
+                | none =>
+                  simp only [h7, Option.map] at h
+                  cases h8 : look bs .convert with
+                  | some v => simp [h8] at h; obtain ⟨rfl, rfl⟩ := h; exact h8
+                  | none =>
+                    simp only [h8, Option.map] at h
+                    cases h9 : look bs .extras with
+                    | some v => simp [h9] at h; obtain ⟨rfl, rfl⟩ := h; exact h9
+                    | none =>
+                      simp only [h9, Option.map] at h
+                      cases h10 : look bs .solve with
+                      | some v => simp [h10] at h; obtain ⟨rfl, rfl⟩ := h; exact h10
+                      | none =>
+                        simp only [h10, Option.map] at h
+                        cases h11 : look bs .report with
+                        | some v => simp [h11] at h; obtain ⟨rfl, rfl⟩ := h; exact h11
+                        | none =>
+                          simp only [h11, Option.map] at h
+                          cases h12 : look bs .suffixes with
+                          | some v => simp [h12] at h; obtain ⟨rfl, rfl⟩ := h; exact h12
+                          | none =>
+                            simp [h12] at h
+
+/-- for an environment of exceptions only, the fold is the table -/
+theorem runP_eq_run (sc : Scenario) (bs : Behaviours) (hex : bs.exceptionsOnly = true) :
+    runP sc bs = run (sc.withFaults bs) := by
+  rw [runP_first]
+  have : (firstBeh bs).toList = Behaviours.ofRaises (firstFault bs).toList := by
+    unfold firstFault
+    cases hfb : firstBeh bs with
+    | none => rfl
+    | some p =>
+      obtain ⟨s, b⟩ := p
+      obtain ⟨r, rfl⟩ := look_exceptionsOnly bs hex s b (firstBeh_some bs s b hfb)
+      rfl
+  rw [this, runP_single]; rfl
+
+set_option maxRecDepth 8000 in
+set_option maxHeartbeats 4000000 in
+/-- a stage that kills the process ends the run exactly where a foreign exception at that stage would -/
+theorem runP_abort_as_foreign (sc : Scenario) (s : Stage) :
+    runP sc [(s, .aborts)] = runP sc [(s, .raises .foreign)] := by
+  cases hf : parseFlags sc.flags 0 with
+  | stop => cases s <;> (try c09_psimp) <;> simp [rbaOutcome, Raise.toExn, reportError]
+  | throwOptionError => cases s <;> (try c09_psimp) <;> simp [rbaOutcome, Raise.toExn, reportError]
+  | proceed w0 =>
+    cases hs : sc.hasStub with
+    | false => cases s <;> (try c09_psimp) <;> simp [rbaOutcome, Raise.toExn, reportError]
+    | true =>
+      rcases hp : parseOpts (expandOpts sc.opts) (if sc.ampl then 1 else w0) with ⟨w, _ | r'⟩
+      · cases ho : sc.objnoTooBig <;> cases he : sc.justExport <;> cases s <;> (try c09_psimp) <;> simp [rbaOutcome, Raise.toExn, reportError]
+      · cases s <;> (try c09_psimp) <;> simp [rbaOutcome, Raise.toExn, reportError]
+
+set_option maxRecDepth 8000 in
+set_option maxHeartbeats 4000000 in
+/-- a stage that aborts / hangs: the run ends that way if the stage is reached, and otherwise it ends as if the
+environment did nothing at all -/
+theorem runP_abort_or_unreached (sc : Scenario) (s : Stage) :
+    (runP sc [(s, .aborts)] = .crash ∧ runP sc [(s, .hangs)] = .hang) ∨
+    (runP sc [(s, .aborts)] = runP sc [] ∧ runP sc [(s, .hangs)] = runP sc []) := by
+  cases hf : parseFlags sc.flags 0 with
+  | stop => cases s <;> c09_psimp
+  | throwOptionError => cases s <;> c09_psimp
+  | proceed w0 =>
+    cases hs : sc.hasStub with
+    | false => cases s <;> c09_psimp
+    | true =>
+      rcases hp : parseOpts (expandOpts sc.opts) (if sc.ampl then 1 else w0) with ⟨w, _ | r'⟩
+      · cases ho : sc.objnoTooBig <;> cases he : sc.justExport <;> cases s <;> c09_psimp
+      · cases s <;> c09_psimp
 
 /-! ## Invariants of the fold for arbitrary step sequences and states -/
 
 theorem reportError_not_sol_incomplete (a : Bool) (w : Nat) (out : OutPath) (h : Bool) (d : Dims) (x : Exn) (f : SolFile) (e : Bool)
     (hh : reportError a w out h d x = .sol f e) : f.complete = true ∧ out.writable = true := by
-  unfold reportError at hh
-  split at hh
-  · simp at hh
-  · split at hh
-    · unfold orStderr handleSolution at hh
-      cases hw : wantsFile a w <;> cases ho : out.writable <;> simp [hw, ho] at hh
-      obtain ⟨rfl, _⟩ := hh
-      exact ⟨rfl, rfl⟩
+  by_cases hx : x = .foreign
+  · simp [reportError, hx] at hh
+  · rw [reportError_cases _ _ _ _ _ _ hx] at hh
+    cases h
     · simp at hh
+    · simp only [if_true] at hh
+      rcases handleSolution_cases a w out
+        { code := x.reportCode, ncons := d.ncons, nduals := 0, nvars := d.nvars, nprimals := 0, complete := true }
+        with ⟨_, _, h3⟩ | ⟨_, ho, h3⟩ | ⟨_, h3⟩ <;> rw [h3] at hh <;> simp [orStderr] at hh
+      obtain ⟨rfl, _⟩ := hh
+      exact ⟨rfl, ho⟩
 
 theorem onRaise_sol (sc : Scenario) (st : PState) (r : Raise) (f : SolFile) (e : Bool)
     (h : onRaise sc st r = .sol f e) : f.complete = true ∧ sc.out.writable = true := by
@@ -115,18 +231,14 @@ theorem onRaise_sol (sc : Scenario) (st : PState) (r : Raise) (f : SolFile) (e :
   · cases hx : r.toExn <;> simp [hx, rbaOutcome] at h
 
 theorem writeOrRetry_sol (a : Bool) (w : Nat) (out : OutPath) (hd : Bool) (d : Dims) (g f : SolFile) (e : Bool)
-    (hg : g.complete = true) (h : writeOrRetry a w out hd d g = .sol f e) : f.complete = true ∧ out.writable = true := by
+    (h : writeOrRetry a w out hd d g = .sol f e) : f.complete = true ∧ out.writable = true := by
   unfold writeOrRetry at h
-  cases hh : handleSolution a w out g with
-  | none => rw [hh] at h; exact reportError_not_sol_incomplete _ _ _ _ _ _ _ _ h
-  | some o =>
-    rw [hh] at h
-    simp only at h
-    subst h
-    unfold handleSolution at hh
-    cases hw : wantsFile a w <;> cases ho : out.writable <;> simp [hw, ho] at hh
-    obtain ⟨rfl, _⟩ := hh
-    exact ⟨hg, rfl⟩
+  rcases handleSolution_cases a w out g with ⟨_, _, h3⟩ | ⟨_, ho, h3⟩ | ⟨_, h3⟩ <;> rw [h3] at h
+  · exact reportError_not_sol_incomplete _ _ _ _ _ _ _ _ h
+  · simp only [Outcome.sol.injEq] at h
+    obtain ⟨rfl, _⟩ := h
+    exact ⟨rfl, ho⟩
+  · simp at h
 
 theorem reportError_crash (a : Bool) (w : Nat) (out : OutPath) (h : Bool) (d : Dims) (x : Exn)
     (hc : reportError a w out h d x = .crash) : x = .foreign := by
@@ -164,6 +276,8 @@ theorem step_done_sol (sc : Scenario) (bs : Behaviours) (p : Step) (st : PState)
     simp only [step] at h
     split at h
     · simp at h
+    · simp at h
+    · simp at h
     · split at h
       · simp at h
       · simp only [Ctl.done.injEq] at h; exact onRaise_sol _ _ _ _ _ h
@@ -188,6 +302,8 @@ theorem step_done_sol (sc : Scenario) (bs : Behaviours) (p : Step) (st : PState)
     split at h <;> simp at h
   | write =>
     simp only [step, Ctl.done.injEq] at h
-    exact writeOrRetry_sol _ _ _ _ _ _ _ _ rfl h
+    exact writeOrRetry_sol _ _ _ _ _ _ _ _ h
+  | enterRun => simp [step] at h
+  | mkHandler => simp [step] at h
 
 end MpVerif.C09
